@@ -142,7 +142,7 @@ func registerAll() {
 	propTable["C16"] = &PropSpec{
 		ID:          "C16",
 		Rules:       []string{"G1", "G2", "G3", "G4", "G5", "G6", "D4"},
-		Explanation: "every goroutine body's transitive may-effect set has no write to storage, container, slab or global state and no write through captured variables; maps read by workers are written by the launcher only after a receive loop counted to the number of queued jobs; workers defer wg.Done, wg.Add(n) dominates a loop launching n workers, close(results) is deferred after wg.Wait, job/result channels are buffered; after a non-deferred put no use of the pooled object or an alias is reachable (up to re-definition), with a deferred put no alias escapes; objects are Reset before Pool.Put; no package variable can be written after init through any API function. A pooled object is put at most once per Get (no non-deferred put beside a deferred one); the result channel has the capacity of the job queue whenever workers send unconditionally.",
+		Explanation: "every goroutine body's transitive may-effect set has no write to storage, container, slab or global state and no write through captured variables; maps read by workers are written by the launcher only after a receive loop counted to the number of queued jobs; workers defer wg.Done, wg.Add(n) dominates a loop launching n workers, close(results) is deferred after wg.Wait, job/result channels are buffered; after a non-deferred put no use of the pooled object or an alias is reachable (up to re-definition), with a deferred put no alias escapes; objects are Reset before Pool.Put; no package variable can be written after init through any API function. A pooled object is put at most once per Get (no non-deferred put beside a deferred one); the result channel has the capacity of the job queue whenever workers send unconditionally. The job channel is closed on every way out of a launcher; no return inside a launcher's receive loop depends on the content of an individual worker result (otherwise the error returned and the cache fills applied before it depend on which worker finished first - two open known findings: FastCommit, BatchPreload).",
 		NotDecided:  "sequential equality of the results of a concurrent run (only through C04), races inside client callbacks, retention of pooled objects by callees.",
 		Technique:   "may-effect summaries over the call graph, dominance by drain-loop exits, alias taint for pooled objects",
 	}
